@@ -2086,19 +2086,43 @@ def rule_format_options_only_forwarded(model: Model, rule_id: str = 'C19-R8') ->
         for x in ast.walk(f.node):
             for ch in ast.iter_child_nodes(x):
                 parents[id(ch)] = x
+        def only_forwarded(g: FuncInfo, name: str, depth: int = 0) -> t.Optional[ast.AST]:
+            """None if every use of the parameter ``name`` in ``g`` hands it on; else the offending construct."""
+            gparents: t.Dict[int, ast.AST] = {}
+            for x_ in ast.walk(g.node):
+                for ch_ in ast.iter_child_nodes(x_):
+                    gparents[id(ch_)] = x_
+            for x_ in ast.walk(g.node):
+                if not (isinstance(x_, ast.Name) and x_.id == name and isinstance(x_.ctx, ast.Load)):
+                    continue
+                par_ = gparents.get(id(x_))
+                if isinstance(par_, ast.keyword) and par_.value is x_:
+                    call_ = gparents.get(id(par_))
+                    h = model.functions.get(model.resolve(call_.func, g.module, g) or '') if isinstance(call_, ast.Call) else None
+                    if h is not None and h.module is g.module and par_.arg and depth < 3 and isinstance(h.node, ast.FunctionDef):
+                        inner = only_forwarded(h, par_.arg, depth + 1)
+                        if inner is not None:
+                            return inner
+                    continue
+                if isinstance(par_, ast.Dict) and any(v is x_ for v in par_.values):
+                    continue
+                if isinstance(par_, ast.Call) and any(a_ is x_ for a_ in par_.args) and depth < 3:
+                    h = model.functions.get(model.resolve(par_.func, g.module, g) or '')
+                    if h is not None and h.module is g.module and isinstance(h.node, ast.FunctionDef):
+                        hp = [a_.arg for a_ in h.node.args.posonlyargs + h.node.args.args]
+                        i_ = [k for k, a_ in enumerate(par_.args) if a_ is x_][0]
+                        if i_ < len(hp):
+                            inner = only_forwarded(h, hp[i_], depth + 1)
+                            if inner is None:
+                                continue
+                            return inner
+                return par_ if par_ is not None else x_
+            return None
+
         for o in opts:
             r.instances += 1
-            bad = None
-            uses = 0
-            for x in ast.walk(f.node):
-                if isinstance(x, ast.Name) and x.id == o and isinstance(x.ctx, ast.Load):
-                    uses += 1
-                    par = parents.get(id(x))
-                    if isinstance(par, ast.keyword) and par.value is x:
-                        continue
-                    if isinstance(par, ast.Dict) and any(v is x for v in par.values):
-                        continue
-                    bad = par if par is not None else x
+            uses = sum(1 for x in ast.walk(f.node) if isinstance(x, ast.Name) and x.id == o and isinstance(x.ctx, ast.Load))
+            bad = only_forwarded(f, o)
             r.sample({f'{f.name}({o}=)': uses})
             if bad is None:
                 r.ok()
@@ -2491,15 +2515,34 @@ def rule_bindings_scoped_to_base(model: Model, rule_id: str = 'C17-R16') -> Rule
     if not loops:
         raise AnalysisError('_process: the walk over the MRO was not found')
     for loop in loops:
-        base = loop.target.id
-        calls = [c for st in loop.body for c in ast.walk(st) if isinstance(c, ast.Call) and isinstance(c.func, ast.Attribute)
-                 and c.func.attr == 'replace_typevars']
-        for c in calls:
+        sites: t.List[t.Tuple[ast.Call, str, ast.AST]] = []      # (substitution, name of the base there, root of the search for tests)
+        for st in loop.body:
+            for c in ast.walk(st):
+                if not isinstance(c, ast.Call):
+                    continue
+                if isinstance(c.func, ast.Attribute) and c.func.attr == 'replace_typevars':
+                    sites.append((c, loop.target.id, loop))
+                    continue
+                # a helper of the module that is handed the base: the substitution may live there
+                g = model.functions.get(model.resolve(c.func, f.module, f) or '')
+                if g is not None and g.module is f.module and isinstance(g.node, ast.FunctionDef):
+                    gparams = [a_.arg for a_ in g.node.args.posonlyargs + g.node.args.args]
+                    bname = None
+                    for i_, a_ in enumerate(c.args):
+                        if isinstance(a_, ast.Name) and a_.id == loop.target.id and i_ < len(gparams):
+                            bname = gparams[i_]
+                    for k_ in c.keywords:
+                        if isinstance(k_.value, ast.Name) and k_.value.id == loop.target.id and k_.arg:
+                            bname = k_.arg
+                    for c2 in ast.walk(g.node):
+                        if isinstance(c2, ast.Call) and isinstance(c2.func, ast.Attribute) and c2.func.attr == 'replace_typevars':
+                            sites.append((c2, bname or '\0', g.node))
+        for (c, base, root) in sites:
             r.instances += 1
             scoped = None
             child: ast.AST = c
             for anc in ancestors(c):
-                if anc is loop:
+                if anc is root:
                     break
                 tests: t.List[ast.AST] = []
                 if isinstance(anc, ast.IfExp) and child is anc.body:
@@ -2539,7 +2582,13 @@ def rule_parameters_from_all_bases(model: Model, rule_id: str = 'C17-R17') -> Ru
                 and x.func.attr == '__init_subclass__'), None)
     if sup is None:
         raise AnalysisError('__init_subclass__: super().__init_subclass__() not found')
-    before = [st for st in f.node.body if st.end_lineno is not None and st.end_lineno < sup.lineno]
+    before: t.List[ast.AST] = [st for st in f.node.body if st.end_lineno is not None and st.end_lineno < sup.lineno]
+    for st in list(before):
+        for c in ast.walk(st):
+            if isinstance(c, ast.Call):
+                g = model.functions.get(model.resolve(c.func, f.module, f) or '')
+                if g is not None and g.module is f.module and isinstance(g.node, ast.FunctionDef):
+                    before.append(g.node)       # an extracted `_inherited_parameters(cls)`
     over_bases = [unparse(x.iter)[:50] for st in before for x in ast.walk(st)
                   if isinstance(x, (ast.For, ast.comprehension)) and re.search(r'__bases__|__orig_bases__|__mro__', unparse(x.iter))]
     reads = [unparse(x)[:60] for st in before for x in ast.walk(st)
